@@ -366,6 +366,67 @@ fn views(out: &mut Out, rng: &mut Rng, thorough: bool) {
 				}
 			}
 		}
+		// a hash-only backend through push / rewind / push: its own history for the model
+		if n >= 3 {
+			let mut hb = VecBackend::<Elem>::new_hash_only();
+			let mut hsize = 0u64;
+			out.raw("pmmr new");
+			let mut hel: Vec<Elem> = vec![];
+			let push = |hb: &mut VecBackend<Elem>, hsize: &mut u64, e: &Elem, out: &mut Out| {
+				let mut p = PMMR::at(hb, *hsize);
+				let res = p.push(e);
+				*hsize = p.size;
+				let rhs = match res {
+					Ok(_) => format!("{} {}", *hsize, root_str(p.root())),
+					Err(_) => "err".to_string(),
+				};
+				out.line(&format!("pmmr push {}", hex(&e.0)), &rhs);
+			};
+			for e in &elems {
+				push(&mut hb, &mut hsize, e, out);
+				hel.push(e.clone());
+			}
+			// rewind to an earlier leaf boundary (sometimes to a position inside a subtree: rounded up)
+			let keep = rng.range(1, n - 1);
+			let mut target = pmmr::insertion_to_pmmr_index(keep);
+			if rng.chance(1, 3) && target > 1 {
+				target -= 1;
+			}
+			{
+				let mut p = PMMR::at(&mut hb, hsize);
+				let r = p.rewind(target, &croaring::Bitmap::new());
+				hsize = p.size;
+				out.line(&format!("pmmr prewind {}", target), &if r.is_ok() { hsize.to_string() } else { "err".into() });
+			}
+			hel.truncate(pmmr::n_leaves(hsize) as usize);
+			for _ in 0..3 {
+				let e = Elem(rng.bytes(8));
+				push(&mut hb, &mut hsize, &e, out);
+				hel.push(e);
+			}
+			let hp = PMMR::at(&mut hb, hsize);
+			out.line(&format!("pmmr vpeaks {}", hsize), &hashes(&hp.peaks()));
+			if let Ok(root) = hp.root() {
+				for (i, e) in hel.iter().enumerate() {
+					let pos = pmmr::insertion_to_pmmr_index(i as u64);
+					if let Some(pr) = proof_line(out, &hp, hsize, pos) {
+						if pr.verify(root, e, pos).is_err() {
+							out.raw(&format!("#ORACLE-FAIL C07 after push/rewind/push on a hash-only backend the proof of leaf {} (size {}) does not verify", pos, hsize));
+						}
+					}
+				}
+			}
+			// restore the model state of the full backend for the steps below
+			out.raw("pmmr new");
+			let mut s2 = 0u64;
+			let mut tmp = VecBackend::<Elem>::new();
+			for e in &elems {
+				let mut p = PMMR::at(&mut tmp, s2);
+				let res = p.push(e);
+				s2 = p.size;
+				out.line(&format!("pmmr push {}", hex(&e.0)), &match res { Ok(_) => format!("{} {}", s2, root_str(p.root())), Err(_) => "err".into() });
+			}
+		}
 		// one rewindable view moved backwards and forwards
 		{
 			let mut rv = RewindablePMMR::<Elem, _>::new(&ba);
